@@ -6,16 +6,17 @@ import (
 	"go/token"
 	"go/types"
 	"strings"
+	"time"
 	"unicode/utf8"
 
 	"golang.org/x/tools/go/ssa"
 )
 
 type fnInfo struct {
-	idx   map[ssa.Value]int
-	nregs int
+	idx    map[ssa.Value]int
+	nregs  int
 	isRepo bool
-	name  string
+	name   string
 }
 
 type deferred struct {
@@ -334,6 +335,11 @@ func (e *Engine) run(fr *Frame) Value {
 		p.steps += int64(len(block.Instrs))
 		if p.steps > e.stepLimit {
 			e.stepBudgetExceeded()
+		}
+		e.tick++
+		if e.tick&0x3ff == 0 && !e.deadline.IsZero() && time.Now().After(e.deadline) {
+			e.deadlineHit = true
+			e.inconclusive("instance time limit reached")
 		}
 		// phis first (simultaneous assignment)
 		nphi := 0
